@@ -260,6 +260,100 @@ func runC12(w *World, r *Report) {
 	r.Rule("C12.pointer-depth", "internalMarshal counts a pointer level before it looks at it: the PointerNum increment dominates every other block of the peeling loop (the typed-nil exit included)", 1)
 	pointerDepthCheck(w, r, "C12.pointer-depth")
 
+	// ---- reflect typestate over the codec
+	r.Rule("C12.reflect-zero", "no possibly-nil reflect.Type / possibly-zero reflect.Value reaches a panicking method unguarded in the serializer", 0)
+	{
+		fns := w.RepoFuncs("internal/serialization")
+		n := ruleReflectZero(w, r, "C12.reflect-zero", fns, c12ReflectExceptions)
+		r.Info("C12.reflect-zero", "scope", im.Pos(), fmt.Sprintf("%d functions of internal/serialization, %d possibly-zero uses", len(fns), n))
+	}
+
+	// ---- a decoded value is placed into its holder only after its type was checked against the holder's
+	r.Rule("C12.decoded-value-assignable", "internalUnmarshal puts a decoded value into a struct field / map entry / slice only after an AssignableTo test (reflect's Set, SetMapIndex and Append panic on a mismatch, e.g. a slice decoded for an array-typed or *[]T-typed field)", 3)
+	{
+		assignableGuard := func(b *ssa.BasicBlock) bool {
+			return hasGuard(b, func(g guard) bool {
+				c, ok := g.cond.(*ssa.Call)
+				return ok && g.pol && c.Call.IsInvoke() && c.Call.Method.Name() == "AssignableTo"
+			})
+		}
+		// module helpers whose every success return is behind such a test
+		checkedHelper := func(f *ssa.Function) bool {
+			if f == nil || f.Blocks == nil {
+				return false
+			}
+			okAll, n := true, 0
+			instrs(f, func(in ssa.Instruction) {
+				ret, ok := in.(*ssa.Return)
+				if !ok || len(ret.Results) < 2 || !isNilConst(ret.Results[len(ret.Results)-1]) {
+					return
+				}
+				n++
+				if assignableGuard(ret.Block()) {
+					return
+				}
+				// the zero value of the holder's own type is trivially assignable
+				if zc, ok := ret.Results[0].(*ssa.Call); ok && calleeFullName(zc) == "reflect.Zero" {
+					if _, isParam := zc.Call.Args[0].(*ssa.Parameter); isParam {
+						return
+					}
+				}
+				okAll = false
+			})
+			return okAll && n > 0
+		}
+		n := 0
+		instrs(iu, func(in ssa.Instruction) {
+			c, ok := in.(*ssa.Call)
+			if !ok {
+				return
+			}
+			name := calleeFullName(c)
+			if !(name == "(reflect.Value).Set" || name == "(reflect.Value).SetMapIndex" || name == "reflect.Append") {
+				return
+			}
+			for _, a := range c.Call.Args[1:] {
+				// a slice argument of Append's variadic: look at its stored elements
+				vals := []ssa.Value{a}
+				if sl, ok := a.(*ssa.Slice); ok {
+					if al, ok := sl.X.(*ssa.Alloc); ok {
+						for _, ref := range *al.Referrers() {
+							if ia, ok := ref.(*ssa.IndexAddr); ok {
+								for _, rr := range *ia.Referrers() {
+									if st, ok := rr.(*ssa.Store); ok {
+										vals = append(vals, st.Val)
+									}
+								}
+							}
+						}
+					}
+				}
+				for _, v := range vals {
+					switch x := v.(type) {
+					case *ssa.Call:
+						if calleeFullName(x) != "reflect.ValueOf" {
+							continue
+						}
+						if _, isExtract := x.Call.Args[0].(*ssa.Extract); !isExtract {
+							continue
+						}
+						n++
+						r.Check(assignableGuard(c.Block()), "C12.decoded-value-assignable", fmt.Sprintf("internalUnmarshal: decoded value #%d placed with %s", n, name), c.Pos(), "behind an AssignableTo test",
+							"a decoded value is handed to "+name+" without its type having been checked against the holder: a value the writer stored in another shape (a slice for an array-typed field, a []T for a *[]T field …) makes Unmarshal panic instead of returning an error")
+					case *ssa.Extract:
+						if hc, ok := x.Tuple.(*ssa.Call); ok && isReflectValue(x.Type()) {
+							n++
+							r.Check(checkedHelper(staticCallee(hc)), "C12.decoded-value-assignable", fmt.Sprintf("internalUnmarshal: decoded value #%d placed with %s", n, name), c.Pos(), "produced by a helper that tests AssignableTo before every success return", "the helper producing the placed value does not test assignability on every success return")
+						}
+					}
+				}
+			}
+		})
+		if n < 3 {
+			undecidedf("C12.decoded-value-assignable: %d placements of decoded values found (floor 3)", n)
+		}
+	}
+
 	// ---- map keys: the writer's and the reader's treatment agree
 	r.Rule("C12.key-codec-symmetric", "map keys are json-encoded by the writer and json-decoded by the reader under the same condition (today: unconditionally)", 2)
 	{
@@ -646,3 +740,5 @@ func pointerDepthCheck(w *World, r *Report, rule string) {
 		r.Check(okDom, rule, "internalMarshal counts a pointer level before testing it for nil", inc.Pos(), "PointerNum++ first in the peeling loop", "a pointer level can be left (nil test at "+where+") before it was counted: a typed nil pointer is written with one level too few and comes back as a value / a shallower pointer of a different dynamic type")
 	}
 }
+
+var c12ReflectExceptions = map[string]string{}
